@@ -11,6 +11,24 @@
 use std::ffi::CString;
 
 const CTL_FD_MIN: i32 = 500;
+
+// The Rust runtime sets SIGPIPE to "ignore" before main(). The disposition the
+// puppet was *started* with is therefore recorded by a constructor that the C
+// runtime runs before any Rust start-up code.
+static mut EARLY_SIGPIPE: usize = usize::MAX;
+
+extern "C" fn record_early_sigpipe() {
+    unsafe {
+        let mut old: libc::sigaction = std::mem::zeroed();
+        if libc::sigaction(libc::SIGPIPE, std::ptr::null(), &mut old) == 0 {
+            EARLY_SIGPIPE = old.sa_sigaction;
+        }
+    }
+}
+
+#[used]
+#[link_section = ".init_array"]
+static EARLY_CTOR: extern "C" fn() = record_early_sigpipe;
 const TLEN: usize = 4093;
 
 fn crc32_table() -> [u32; 256] {
@@ -130,6 +148,12 @@ fn sig_dispositions() -> String {
     for s in sigs {
         let mut old: libc::sigaction = unsafe { std::mem::zeroed() };
         unsafe { libc::sigaction(s, std::ptr::null(), &mut old) };
+        if s == libc::SIGPIPE {
+            let early = unsafe { EARLY_SIGPIPE };
+            if early != usize::MAX {
+                old.sa_sigaction = early;
+            }
+        }
         let d = if old.sa_sigaction == libc::SIG_DFL {
             "dfl"
         } else if old.sa_sigaction == libc::SIG_IGN {
